@@ -31,6 +31,7 @@ def run(rep):
     rep.guard(c17.l2, rep, w)
     import c08
     rep.guard(c08.x8, rep, w)   # JumpFinally is emitted only where a handler of the same function is registered at run time
+    rep.guard(c08.x4, rep, w)   # every try statement ends in EndFinally: the code address a JumpFinally parks is resumed by that statement, not by whichever EndFinally runs next (another function's chunk)
     import c03, c06
     rep.guard(c03.t4, rep, w)   # every encoding limit is refused on its exceeding side (a dropped limit error lets truncated operands through)
     rep.guard(c06.s2, rep, w)   # a captured local leaves the stack through CloseUpvalue on every exit path: the closure keeps naming that variable
@@ -864,10 +865,26 @@ def b11(rep, w):
     no path may skip the pops because of what was emitted last."""
     r = rep.rule('B11', 'end_scope emits the pops of the scope\'s locals on every path', floor=1)
     f = w.require_fn(P + 'end_scope', 'C04')
-    ends = {bi for bi, t in f.calls() if callee_name(t) == P + 'emit_scope_end'}
-    if not ends:
-        ends = {bi for (bi, k, o, d) in emit.emissions(w, f) if o in ('Pop', 'CloseUpvalue')}
-    r.check(bool(ends) and c01.all_paths_hit(f, None, ends), 'end_scope: emit_scope_end on every path', 'end_scope can leave a scope without emitting the pops for its locals: on a path that '
+    # the emission is found by role: a call of (or through) the code that chooses Pop / CloseUpvalue by a local's is_captured flag
+    # (c06.scope_exit_choosers), or - when that code was folded into end_scope - an emission of end_scope itself. A loop over the
+    # scope's locals that happens to run zero times has emitted all there is to emit: the head of a loop around the emission counts.
+    import c06
+    choosers = {g.path for g in c06.scope_exit_choosers(w)}
+    cg = w.callgraph()
+    via = set(choosers)
+    for _ in range(2):
+        via |= {a for a, bs in cg.items() if bs & via and a != f.path}
+    ends = {bi for bi, t in f.calls() if callee_name(t) in via}
+    ends |= {bi for bi, t in f.calls() if callee_name(t) in (P + 'emit_byte', P + 'emit_bytes')}
+    if f.path in choosers:
+        ends |= {bi for (bi, k, o, d) in emit.emissions(w, f) if o in ('Pop', 'CloseUpvalue')}
+    dom = f.dominators()
+    heads = set()
+    for e in ends:
+        for h in dom.get(e, ()):
+            if h != e and h in f.reachable_blocks(e):
+                heads.add(h)
+    r.check(bool(ends) and c01.all_paths_hit(f, None, ends | heads), 'end_scope: emit_scope_end on every path', 'end_scope can leave a scope without emitting the pops for its locals: on a path that '
             'falls out of the block the locals stay on the stack and every later local of the function is read one slot off', f.loc())
 
 
